@@ -570,7 +570,7 @@ class Replayer:
                       "_history": {"x": [self.new("x", t) for _ in range(n)], "logl": [self.new("logl", t) for _ in range(n)],
                                    "beta": [1.0] * n, "logz": [0.0] * n}}
             self._dictcount = getattr(self, "_dictcount", 0) + 1
-            if n >= 1 and self._dictcount % 2 == 0:
+            if n >= 1 and self._dictcount % 2 == 0 and getattr(self, "_allow_stack", False):
                 # histories handed over as ONE stacked array per quantity (what results() / get_history(key) return) instead of a
                 # list of batches: the caller keeps (and later overwrites) those arrays
                 self.d["_history"]["x"] = np.stack([np.array(b) for b in self.d["_history"]["x"]])
@@ -642,6 +642,9 @@ class Replayer:
         verbatim what was done for the sibling behaviour); every step beyond it gets the full treatment."""
         prev = None
         pkey = ()
+        # histories handed over as stacked arrays (make_dict variant) only in behaviours in which the caller does not go on to
+        # edit single batches / the list structure of that dictionary (the model describes those edits for LISTS of batches)
+        self._allow_stack = not any(e_["l"]["op"] in ("scribble", "scribble_list", "set_current_held") and e_["l"].get("w") in ("dhist", None) for e_ in path)
         for n, e in enumerate(path):
             self.at = n
             l, want, sh = e["l"], e["v"], e["sh"]
